@@ -26,7 +26,7 @@ theorem C18_sound (t : Tor) (items : List Item) (cb : Callback) (elapsed : Bool)
     ∃ c loc, Item.file (.torrent c) loc ∈ items ∧ copy c t = .ok (reuse t items cb elapsed).2.1 ∧
       t.name = c.name ∧
       (∃ tid cid, filepathsAndSizes t.name t.single t.files = .ok tid ∧
-        filepathsAndSizes c.name c.single c.files = .ok cid ∧ tid.Perm cid) ∧
+        filepathsAndSizes c.name c.single c.files c.bytesPath = .ok cid ∧ tid.Perm cid) ∧
       t.plMin ≤ c.pieceLength ∧ c.pieceLength ≤ t.plMax ∧
       ∀ f ∈ t.files, ∃ pos, filePosition c.name f c.files 0 = some pos ∧
         ∀ i ∈ fileSamples c.pieceLength pos f.size, ∃ d, c.hashes[i]? = some d ∧ loc i = .hash d := by
@@ -140,7 +140,7 @@ theorem C18_error_raised_without_callback (t : Tor) (elapsed : Bool) (it : Item)
 
 /-- two files of 3 and 2 pieces (piece length 4 for readability), candidate in another order -/
 def exT : Tor := ⟨"N", false, [⟨["a"], 10⟩, ⟨["b"], 6⟩], 8, none, 1, 64⟩
-def exC : Cand := ⟨"N", false, [⟨["b"], 6⟩, ⟨["a"], 10⟩], 4, ["h0", "h1", "h2", "h3"]⟩
+def exC : Cand := ⟨"N", false, [⟨["b"], 6⟩, ⟨["a"], 10⟩], 4, ["h0", "h1", "h2", "h3"], false⟩
 def exLoc : Nat → LocalPiece := fun i => .hash s!"h{i}"
 /-- same shape, but piece 2 differs locally -/
 def exLocBad : Nat → LocalPiece := fun i => if i = 2 then .hash "other" else .hash s!"h{i}"
